@@ -1,6 +1,7 @@
 import P2.Proofs.LibSpecRefine
 import P2.Proofs.LibSpecLaws
 import P2.Proofs.LibSpecMisuse
+import P2.Proofs.LibSpecExt
 /-! # C07 — Built-in list, map, string and numeric library matches its documented model
 
 Property theorems only. Spec: `P2/Spec/LibSpec.lean` — an independent EAGER reference of every
@@ -353,6 +354,149 @@ theorem dispatch_examples (ap : Apply) (k : Nat) (s : Str) (kvs : KVs) (str : St
     stringMethod "cut" str args = some (sCut str.toList args) ∧
     staticFn ap k "abs" args = some (fAbs args) :=
   ⟨rfl, rfl, rfl, rfl, rfl, rfl, rfl, rfl⟩
+
+
+/-! ## (d) second part of the specification (`Spec/LibSpecExt.lean`): `behind`, `behindList`,
+`multiUse`, `linearReg`, `createInterpolation`, `bisection`, `createLowPass`
+
+The numeric functions are stated over an arbitrary carrier `F` with operations `N : Num F` (the
+driver runs them on IEEE doubles, `floatNum`); hypotheses about `N` are named where a statement
+needs them (none of them holds for ALL doubles: NaN is not `≤` itself, `(a+b)/2` can overflow).
+
+Stated, not proved (goals for a later round):
+* `interpolate N pts x_i = ok y_i` at an INTERIOR node, for strictly increasing nodes over an
+  ordered field (`a − a = 0`, `0 / d = 0`, `d · 0 = 0`, `y + 0 = y`): `interpolate_first/last`
+  below cover the end nodes, `bsearch_bracket` + `interpolate_inside` reduce the interior case to
+  those four arithmetic laws;
+* the program text of the returned functions (`interpClos`, `lineFuncClos`) evaluates, in the
+  reference semantics, to `interpolate floatNum` / `a·x + b` (today: tied by the differential run);
+* `regAB` of exactly collinear points over an exact field is the line through them (needs ring
+  normalisation; the harness checks the integer instance on the implementation). -/
+
+/-- C07.d1 `behind`: the text is cut at the FIRST occurrence of the prefix — `s = before ++ pre ++ r`
+with no occurrence starting inside `before` — and `afterFirst` fails exactly when `contains` does -/
+theorem behind_cuts_at_first (pre s r : List Char) (h : afterFirst pre s = some r) :
+    ∃ before, s = before ++ pre ++ r ∧ ∀ k, k < before.length → pre.isPrefixOf (s.drop k) = false :=
+  afterFirst_some pre s r h
+theorem behind_absent_iff (pre s : List Char) : afterFirst pre s = none ↔ infixOf pre s = false :=
+  afterFirst_none_iff pre s
+/-- the first line that contains the prefix decides; no such line: the empty string -/
+theorem behind_first_line (pre r ln : List Char) (l1 l2 : List (List Char))
+    (hn : ∀ l, l ∈ l1 → afterFirst pre l = none) (h : afterFirst pre ln = some r) :
+    behindLines pre (l1 ++ ln :: l2) = trimS r := behindLines_first pre r ln l2 l1 hn h
+theorem behind_no_line (pre : List Char) (ls : List (List Char)) (hn : ∀ l, l ∈ ls → afterFirst pre l = none) :
+    behindLines pre ls = [] := behindLines_none pre ls hn
+/-- the lines `behind` looks at are the lines of the text -/
+theorem behind_lines_are_the_text (s : List Char) : joinL nl (splitS s nl) = s :=
+  P2.LibSpec.join_split s nl (by decide)
+
+/-- C07.d2 `behindList`: exactly the lines between the key line and the next empty line -/
+theorem behindList_spec (k : List Char) (pre items rest : List (List Char)) (hp : ∀ l, l ∈ pre → l ≠ k)
+    (hi : ∀ i, i ∈ items → i ≠ []) (hr : rest = [] ∨ rest.head? = some []) :
+    behindListOf (pre ++ k :: (items ++ rest)) k = items := behindListOf_spec k items rest hi hr pre hp
+theorem behindList_absent (k : List Char) (ls : List (List Char)) (hp : ∀ l, l ∈ ls → l ≠ k) :
+    behindListOf ls k = [] := behindListOf_absent k ls hp
+
+/-- C07.d3 `multiUse_spec`: the result map has the keys of the consumer map in the same order, and
+under each key the (deep-evaluated) result of that consumer applied to the list — all consumers
+see the same element sequence `l`; any failing consumer (which includes every consumer that reaches
+a failure of the source) makes the whole call fail -/
+theorem multiUse_spec (ap : Apply) (k : Nat) (l : LList) (kvs rs : KVs) :
+    multiUseS ap k l kvs = .ok rs ↔
+      Forall2 (fun kv r => r.1 = kv.1 ∧ consumerResult ap k l kv.2 = .ok r.2) kvs rs :=
+  multiUseS_ok_iff ap k l kvs rs
+theorem multiUse_error (ap : Apply) (k : Nat) (l : LList) (kvs : KVs) (kv : String × Val) (hm : kv ∈ kvs)
+    (hf : ∀ v, consumerResult ap k l kv.2 ≠ .ok v) : ∀ rs, multiUseS ap k l kvs ≠ .ok rs :=
+  multiUseS_fails ap k l kvs kv hm hf
+theorem misuse_is_error_multiUse (ap : Apply) (k : Nat) (s : Str) (a : Val) (kvs : KVs) :
+    (NotMap a → lMultiUse ap k s [a] = .err) ∧
+    lMultiUse ap k s [.map []] = .err ∧
+    ((∃ kv, kv ∈ kvs ∧ NotFn kv.2 1) → lMultiUse ap k s [.map kvs] = .err) := misuse_multiUse ap k s a kvs
+
+/-- C07.d4 `bisection`: an `ok` answer is a point at which the function is below `eps`; the loop
+gives up (error) after `bisectBound = 1001` midpoints; the answer lies in the bracket for every
+carrier in which a midpoint lies between its ends -/
+theorem bisection_result_small {F : Type} (N : Num F) (f : F → R F) (a b eps r : F)
+    (h : bisect N f a b eps = .ok r) : ∃ y, f r = .ok y ∧ N.lt (N.abs y) eps = true :=
+  bisect_ok_small N f a b eps r h
+theorem bisection_bounded {F : Type} (N : Num F) (f : F → R F) (eps a ya b : F) :
+    bisectLoop N f eps 0 a ya b = .err ∧ bisectBound = 1001 := ⟨rfl, rfl⟩
+theorem bisection_in_bracket {F : Type} (N : Num F) (f : F → R F) (eps : F)
+    (hmid : ∀ a b, N.le a b = true → N.le a (N.div (N.add a b) (N.ofNat 2)) = true ∧ N.le (N.div (N.add a b) (N.ofNat 2)) b = true)
+    (htrans : ∀ a b c, N.le a b = true → N.le b c = true → N.le a c = true)
+    (n : Nat) (a ya b r : F) (hab : N.le a b = true) (h : bisectLoop N f eps n a ya b = .ok r) :
+    N.le a r = true ∧ N.le r b = true := bisectLoop_in_bracket N f eps hmid htrans n a ya b r hab h
+
+/-- C07.d5 `createInterpolation`: at or outside the end nodes the end values (exactly `y₀` AT the
+first node when `≤` is reflexive); inside, the search ends at two NEIGHBOURING nodes that bracket
+`x`, and the value is the straight line through exactly these two -/
+theorem interpolation_ends {F : Type} (N : Num F) (p0 pl : F × F) (rest : List (F × F)) (x : F)
+    (hl : (p0 :: rest).getLast? = some pl) :
+    (N.le x p0.1 = true → interpolate N (p0 :: rest) x = .ok p0.2) ∧
+    (N.le x p0.1 = false → N.le pl.1 x = true → interpolate N (p0 :: rest) x = .ok pl.2) ∧
+    ((∀ a, N.le a a = true) → interpolate N (p0 :: rest) p0.1 = .ok p0.2) :=
+  ⟨interpolate_first N p0 rest x, interpolate_last N p0 pl rest x hl,
+   fun h => interpolate_first N p0 rest p0.1 (h _)⟩
+theorem interpolation_neighbours {F : Type} (N : Num F) (xs : List F) (x : F) (fuel n0 n1 m0 m1 : Nat)
+    (h : bsearch N xs x fuel n0 n1 = .ok (m0, m1)) (hlt : n0 < n1)
+    (h0 : ∀ a, xs[n0]? = some a → N.lt x a = false) (h1 : ∀ b, xs[n1]? = some b → N.lt x b = true) :
+    m1 = m0 + 1 ∧ (∀ a, xs[m0]? = some a → N.lt x a = false) ∧ (∀ b, xs[m1]? = some b → N.lt x b = true) :=
+  bsearch_bracket N xs x fuel n0 n1 m0 m1 h hlt h0 h1
+theorem interpolation_inside {F : Type} (N : Num F) (p0 pl a b : F × F) (rest : List (F × F)) (x : F) (m0 m1 : Nat)
+    (hl : (p0 :: rest).getLast? = some pl) (h0 : N.le x p0.1 = false) (h : N.le pl.1 x = false)
+    (hs : bsearch N ((p0 :: rest).map (·.1)) x ((p0 :: rest).length + 1) 0 ((p0 :: rest).length - 1) = .ok (m0, m1))
+    (ha : (p0 :: rest)[m0]? = some a) (hb : (p0 :: rest)[m1]? = some b) :
+    interpolate N (p0 :: rest) x = .ok (lineAt N a b x) :=
+  interpolate_inside N p0 pl a b rest x m0 m1 hl h0 h hs ha hb
+
+/-- C07.d6 `linearReg`: the sums are a left fold in list order (what makes the bit patterns
+comparable), `n` is the number of points -/
+theorem linearReg_sums {F : Type} (N : Num F) (pts : List (F × F)) (p : F × F) :
+    regSums N (pts ++ [p]) = regStep N (regSums N pts) p ∧ (regSums N pts).n = pts.length :=
+  ⟨regSums_snoc N pts p, regSums_count N pts⟩
+
+/-- C07.d7 misuse of the numeric built-ins and of `behind*` is an error -/
+theorem misuse_is_error_numeric2 (ap : Apply) (s : Str) (f g a b : Val) (rest : List Val) :
+    (NotFn f 1 ∨ NotFn g 1 → lLinearReg ap s [f, g] = .err ∧ lCreateInterpolation ap s [f, g] = .err) ∧
+    (NotFn f 1 → fBisection ap (f :: a :: b :: rest) = .err) ∧
+    (NotNum a ∨ NotNum b → fBisection ap (f :: a :: b :: rest) = .err) ∧
+    (rest.length > 1 → fBisection ap (f :: a :: b :: rest) = .err) ∧
+    fBisection ap [f, a] = .err ∧
+    (NotString f → fCreateLowPass [f, g, a, b] = .err) ∧
+    (NotFn g 1 ∨ NotFn a 1 ∨ NotNum b → ∀ n, fCreateLowPass [.str n, g, a, b] = .err) :=
+  misuse_numeric ap s f g a b rest
+theorem misuse_is_error_behind (cs : List Char) (a : Val) (h : NotString a) :
+    sBehind cs [a] = .err ∧ sBehindList cs [a] = .err := misuse_behind cs a h
+
+/-- the extended dispatchers route the new names (and fall back to the first part) -/
+theorem dispatch_examples2 (ap : Apply) (k : Nat) (s : Str) (str : String) (args : List Val) :
+    methodX ap k "behind" (.val (.str str)) args = some (sBehind str.toList args) ∧
+    methodX ap k "multiUse" (.str s) args = some (lMultiUse ap k s args) ∧
+    methodX ap k "createInterpolation" (.str s) args = some (lCreateInterpolation ap s args) ∧
+    methodX ap k "map" (.str s) args = some (lMap ap s args) ∧
+    staticFnX ap k "bisection" args = some (fBisection ap args) ∧
+    staticFnX ap k "abs" args = some (fAbs args) :=
+  ⟨rfl, rfl, rfl, rfl, rfl, rfl⟩
+
+/-! non-vacuity of (d) -/
+example : afterFirst "b:".toList "a b: 2 b: 3".toList = some " 2 b: 3".toList := by decide
+example : behindS "a: 1\nb:  2 \nb: 3".toList "b:".toList = "2".toList := by decide
+example : behindS "abc".toList "z".toList = [] ∧ behindS "abab".toList [] = "abab".toList := by decide
+example : behindListS "pre\n h \n a \nb\n\nrest".toList "h".toList = ["a".toList, "b".toList] := by decide
+/-- an exact carrier for the examples: integers with truncating division -/
+def intNum : Num Int := ⟨(· + ·), (· - ·), (· * ·), (· / ·), fun a b => a < b, fun a b => a ≤ b, fun a => a.natAbs, fun n => n⟩
+example : interpolate intNum [(0, 10), (10, 30), (20, 0)] 0 = .ok 10 ∧ interpolate intNum [(0, 10), (10, 30), (20, 0)] 10 = .ok 30 ∧
+    interpolate intNum [(0, 10), (10, 30), (20, 0)] 25 = .ok 0 ∧ interpolate intNum [] 1 = .err := ⟨rfl, rfl, rfl, rfl⟩
+example : bsearch intNum [0, 10, 20, 30] 15 5 0 3 = .ok (1, 2) := rfl
+example : ∀ a b : Int, intNum.le a b = true → intNum.le a (intNum.div (intNum.add a b) (intNum.ofNat 2)) = true ∧
+    intNum.le (intNum.div (intNum.add a b) (intNum.ofNat 2)) b = true := by
+  intro a b h; simp [intNum] at h ⊢; omega
+example : bisect intNum (fun x => .ok (x - 7)) 0 16 1 = .ok 7 := rfl
+example : regAB intNum (regSums intNum [(0, 2), (1, 5), (2, 8), (3, 11), (4, 14)]) = (3, 2) := by decide
+example : (consumerUses (.sclos ["q"] (.method (.method (.ident "q") "map" [.ident "f"]) "sum" []) [] false "")) = some 1 ∧
+    (consumerUses (.sclos ["q"] (.const (.int 1)) [] false "")) = some 0 ∧
+    (consumerUses (.sclos ["q"] (.binop "+" (.method (.ident "q") "sum" []) (.method (.ident "q") "size" [])) [] false "")) = some 2 ∧
+    (consumerUses (.sclos ["q"] (.letE "w" (.ident "q") (.ident "w")) [] false "")) = none := by decide
 
 /-! ## non-vacuity: the hypotheses above have non-trivial instances -/
 
